@@ -131,8 +131,9 @@ def _dispatch(k, c):
     elif k == "eckhardt":
         signatures.eckhardt(values(n, c["v"]), timestep_type=c["tt"], thresh=c["thresh"], tau=c["tau"])
     elif k == "var2h":
-        step = {"short": 60, "hour": 1800, "long": 7200, "dup": 0}[c["span"]]
-        idx = pd.DatetimeIndex([pd.Timestamp("2001-01-01 00:10:00") + pd.Timedelta(seconds=step * i) for i in range(n)])
+        step = {"short": 60, "quarter": 900, "hour": 1800, "long": 7200, "dup": 0}[c["span"]]
+        t0 = "2001-01-01 10:00:00" if c.get("onhour") else "2001-01-01 00:10:00"
+        idx = pd.DatetimeIndex([pd.Timestamp(t0) + pd.Timedelta(seconds=step * i) for i in range(n)])
         se = pd.Series(values(n, c["v"]), index=idx)
         dutils.var2h(se, nbsec_per_period=c["P"], maxgapsec=c["maxgap"], rainfall=c["rain"])
     elif k == "crps":
